@@ -160,10 +160,9 @@ func mathMin(L *LState) int {
 }
 
 func mathMod(L *LState) int {
-	lhs := L.CheckNumber(1)
-	rhs := L.CheckNumber(2)
-	L.Push(luaModulo(lhs, rhs))
-	return 1
+	// math.mod is the Lua 5.0 name of math.fmod (LUA_COMPAT_MOD), not the % operator:
+	// the result takes the sign of the dividend
+	return mathFmod(L)
 }
 
 func mathModf(L *LState) int {
